@@ -602,8 +602,8 @@ func (p *contractParser) line(t string, no int) error {
 			return fmt.Errorf("assert needs 'before|after CALLEE[#n]: expr'")
 		}
 		callee, ord := hd[1], -1
-		direct := strings.HasSuffix(callee, "!")
-		callee = strings.TrimSuffix(callee, "!")
+		direct := strings.Contains(callee, "!")
+		callee = strings.ReplaceAll(callee, "!", "")
 		if j := strings.Index(callee, "#"); j >= 0 {
 			n, err := strconv.Atoi(callee[j+1:])
 			if err != nil {
@@ -645,8 +645,8 @@ func (p *contractParser) line(t string, no int) error {
 			return fmt.Errorf("ghostset needs 'before|after CALLEE[#n]: lhs = expr'")
 		}
 		callee, ord := hd[1], -1
-		direct := strings.HasSuffix(callee, "!")
-		callee = strings.TrimSuffix(callee, "!")
+		direct := strings.Contains(callee, "!")
+		callee = strings.ReplaceAll(callee, "!", "")
 		if j := strings.Index(callee, "#"); j >= 0 {
 			n, err := strconv.Atoi(callee[j+1:])
 			if err != nil {
